@@ -1,0 +1,155 @@
+// Copyright © 2022-2026 Obol Labs Inc. Licensed under the terms of a Business Source License 1.1
+
+//go:build verif
+
+package dkg
+
+import (
+	"context"
+
+	k1 "github.com/decred/dcrd/dcrec/secp256k1/v4"
+	"github.com/libp2p/go-libp2p/core/host"
+	"github.com/libp2p/go-libp2p/core/peer"
+
+	"github.com/obolnetwork/charon/app/errors"
+	"github.com/obolnetwork/charon/cluster"
+	"github.com/obolnetwork/charon/dkg/pedersen"
+	"github.com/obolnetwork/charon/p2p"
+)
+
+// This file is only compiled with the "verif" build tag. It exports what the cluster-changing
+// protocols (protocol_reshare.go, protocol_addoperators.go, protocol_removeoperators.go,
+// protocol_replaceoperator.go) decide before any networking: the peers, the peer map, the state
+// PostInit builds and the steps. It adds no behaviour to any existing function.
+
+// VerifPlan is what RunProtocol has decided when it calls startSyncProtocol.
+type VerifPlan struct {
+	Peers        []p2p.Peer                  // protocol.GetPeers(lock)
+	PeerIDs      []peer.ID                   // buildPeerMap(peers)
+	PeerMap      map[peer.ID]cluster.NodeIdx // buildPeerMap(peers)
+	ThisNodeIdx  cluster.NodeIdx             // pctx.ThisNodeIdx after PostInit
+	HasExchanger bool                        // pctx.SigExchanger != nil after PostInit
+	Pedersen     *pedersen.Config            // the protocol's config field after PostInit
+	Steps        []string                    // one letter per step, see VerifStepLetter
+	UpdOperators []string                    // updateLockProtocolStep.operators (ENRs), nil if there is no such step
+	UpdThreshold int                         // updateLockProtocolStep.threshold, 0 if there is no such step
+}
+
+// VerifStepLetter names the type of a protocol step: R reshareProtocolStep, U updateLockProtocolStep,
+// N updateNodeSignaturesProtocolStep, W writeArtifactsProtocolStep, - noopProtocolStep,
+// I ignoreNodeSignaturesProtocolStep, ? anything else.
+func VerifStepLetter(step ProtocolStep) string {
+	switch step.(type) {
+	case *reshareProtocolStep:
+		return "R"
+	case *updateLockProtocolStep:
+		return "U"
+	case *updateNodeSignaturesProtocolStep:
+		return "N"
+	case *writeArtifactsProtocolStep:
+		return "W"
+	case *noopProtocolStep:
+		return "-"
+	case *ignoreNodeSignaturesProtocolStep:
+		return "I"
+	default:
+		return "?"
+	}
+}
+
+// VerifProtocolPlan re-sequences what RunProtocol does between loading the p2p key and
+// startSyncProtocol, without the networking of setupP2P (of which only its first statement,
+// p2p.VerifyP2PKey, can refuse): kind is reshare | add | rm | repl.
+func VerifProtocolPlan(ctx context.Context, kind string, lock *cluster.Lock, key *k1.PrivateKey, node host.Host, conf Config,
+	newENRs, removing, participating []string, newThreshold int, oldENR, newENR string,
+) (*VerifPlan, error) {
+	var protocol Protocol
+
+	switch kind {
+	case "reshare":
+		protocol = newReshareProtocol("")
+	case "add":
+		protocol = newAddOperatorsProtocol(AddOperatorsConfig{NewENRs: newENRs})
+	case "rm":
+		protocol = newRemoveOperatorsProtocol(RemoveOperatorsConfig{RemovingENRs: removing, ParticipatingENRs: participating, NewThreshold: newThreshold})
+	case "repl":
+		protocol = newReplaceOperatorProtocol(ReplaceOperatorConfig{NewENR: newENR, OldENR: oldENR})
+	default:
+		return nil, errors.New("verif: unknown protocol kind")
+	}
+
+	protocolCtx := &ProtocolContext{
+		Config: conf,
+		Lock:   lock,
+	}
+
+	protocolCtx.ENRPrivateKey = key
+
+	thisPeerID, err := p2p.PeerIDFromKey(key.PubKey())
+	if err != nil {
+		return nil, err
+	}
+
+	protocolCtx.ThisPeerID = thisPeerID
+
+	peers, err := protocol.GetPeers(lock)
+	if err != nil {
+		return nil, err
+	}
+
+	if err := verifyPeerDuplicates(peers); err != nil {
+		return nil, err
+	}
+
+	// setupP2P
+	if err := p2p.VerifyP2PKey(peers, key); err != nil {
+		return nil, err
+	}
+
+	protocolCtx.Peers = peers
+	protocolCtx.PeerIDs, protocolCtx.PeerMap = buildPeerMap(peers)
+	protocolCtx.ThisNodeIdx = protocolCtx.PeerMap[thisPeerID]
+	protocolCtx.ThisNode = node
+
+	plan := &VerifPlan{Peers: peers}
+	plan.PeerIDs, plan.PeerMap = buildPeerMap(peers) // a second map: PostInit may change the context's
+
+	if err := protocol.PostInit(ctx, protocolCtx); err != nil {
+		return nil, errors.Wrap(err, "protocol post init")
+	}
+
+	plan.ThisNodeIdx = protocolCtx.ThisNodeIdx
+	plan.HasExchanger = protocolCtx.SigExchanger != nil
+
+	switch p := protocol.(type) {
+	case *reshareProtocol:
+		plan.Pedersen = p.config
+	case *addOperatorsProtocol:
+		plan.Pedersen = p.config
+	case *removeOperatorsProtocol:
+		plan.Pedersen = p.config
+	case *replaceOperatorProtocol:
+		plan.Pedersen = p.config
+	}
+
+	for _, step := range protocol.Steps(protocolCtx) {
+		plan.Steps = append(plan.Steps, VerifStepLetter(step))
+
+		if upd, ok := step.(*updateLockProtocolStep); ok {
+			plan.UpdOperators = append([]string(nil), upd.operators...)
+			plan.UpdThreshold = upd.threshold
+		}
+	}
+
+	return plan, nil
+}
+
+// VerifBuildPeerMap is buildPeerMap.
+func VerifBuildPeerMap(peers []p2p.Peer) ([]peer.ID, map[peer.ID]cluster.NodeIdx) {
+	return buildPeerMap(peers)
+}
+
+// VerifVerifyPeerDuplicates is verifyPeerDuplicates.
+func VerifVerifyPeerDuplicates(peers []p2p.Peer) error {
+	return verifyPeerDuplicates(peers)
+}
